@@ -123,8 +123,12 @@ CLAIMS = {
              'provided_service(service_time(d)) >= d and provided_service(service_time(d) - 1) <= d - 1 (service_time is the exact '
              'inverse of the specialised implementations); Constrained[deadline := period] = Periodic, Periodic[budget := period] '
              '= Dedicated, Constrained[budget := deadline := period] = Dedicated for both methods -- under the assumptions the '
-             'constructors assert (read off their panic conditions) and budget >= 1. NOT decided: that the closed forms are the '
-             'minimum over all budget placements (a statement about the scheduling model; reviewed reference only).',
+             'constructors assert (read off their panic conditions) and budget >= 1; and SUP-SHAPE: with b0 = (P-B)+(D-B), '
+             'provided_service(delta) = 0 for delta <= b0, = delta - b0 for b0 <= delta <= b0 + B, = B for b0 + B <= delta <= b0 + P, '
+             'and provided_service(delta + P) = provided_service(delta) + B for delta >= b0 -- these four clauses determine the '
+             'function for every delta, so the code provably computes the supply of the placement "budget first, then as late as '
+             'the deadline allows". NOT decided: that this placement is the worst one over all placements (the scheduling-model '
+             'fact of the cited papers).',
         ref='21, 9 and 15'),
     'C10': dict(
         technique='canonical function summaries vs reviewed reference terms; zero/jitter/delegation clauses on terms; linear entailment over guarded cases for the closed-form models',
